@@ -14,6 +14,11 @@ pub fn vx_expect<T>(o: Option<T>) -> (r: T)
 pub fn vx_unreachable() -> !
     requires false,
 { unreachable!() }
+/// R26: `assert!(c)` / `assert_eq!(a, b)`: proving the call safe means proving the condition
+#[verifier::external_body]
+pub fn vx_assert(c: bool)
+    requires c,
+{ assert!(c) }
 /// R22: `format!(..)`: an unspecified String (message texts are not modelled)
 #[verifier::external_body]
 pub fn vx_fmt() -> (s: String) { unimplemented!() }
